@@ -327,6 +327,7 @@ def layout_cells(info, prop, tier, verif, refine=()):
         elif prop == 'C12':
             # witness hints from the real code (untrusted; Verus checks each one)
             wit = {}
+            nowitness = []
             for k in info.keycodes:
                 row = hints[L][k]
                 for lvl in range(3):
@@ -342,12 +343,16 @@ def layout_cells(info, prop, tier, verif, refine=()):
                     a = ['%s.spec_map(KeyCode::%s, &level_mods(%d), HandleControl::Ignore) == uni(0x%02X)' % (L, k, lvl, cp), 'c12_cell(%s, 0x%02X)' % (L, cp)]
                     desc = '%r is typed by %s at level %d' % (chr(cp), k, lvl)
                 else:
-                    a = ['c12_cell(%s, 0x%02X)' % (L, cp)]
-                    desc = '%r is typed by some key at a plain level (no witness found on the real code)' % chr(cp)
+                    # the existential cannot be stated without a witness, and the real code's own complete enumeration
+                    # (all keys x 3 plain levels) has none: the obligation is recorded as undischargeable; the native
+                    # replay repeats that complete search on the real code before anything is reported
+                    a = ['false']
+                    desc = '%r is typed by some key at a plain level - NO WITNESS: no key of the real layout types it at its base, Shift or AltGr level' % chr(cp)
+                    nowitness.append(cid)
                 cells.append((cid, a, desc))
-            kn = [c[0] for c in cells if c[0] in known]
-            coarse = ',\n        '.join(c[1][-1] for c in cells if c[0] not in known)
-            coarse_body = '\n'.join('    assert(%s);' % c[1][0] for c in cells if c[0] not in known and len(c[1]) > 1)
+            kn = [c[0] for c in cells if c[0] in known or c[0] in nowitness]
+            coarse = ',\n        '.join(c[1][-1] for c in cells if c[0] not in kn)
+            coarse_body = '\n'.join('    assert(%s);' % c[1][0] for c in cells if c[0] not in kn and len(c[1]) > 1)
         else:
             raise ExtractError('no layout cell generator for ' + prop)
 
@@ -359,7 +364,7 @@ def layout_cells(info, prop, tier, verif, refine=()):
                      'text': '%s: all %d cells of layout %s in one quantified lemma' % (prop, n_unit, L)}
         ncells += n_unit
         for i, (cid, asserts, desc) in enumerate(cells):
-            if not (percell or cid in known):
+            if not (percell or cid in known or (prop == 'C12' and cid in nowitness)):
                 continue
             o.append('proof fn cell_%d() { %s } // CELL %s' % (i, ' '.join('assert(%s);' % a for a in asserts), cid))
             obs[cid] = {'kind': 'cell', 'unit': unit, 'props': [prop], 'text': desc}
@@ -392,7 +397,7 @@ def anylayout_cells(info, prop, tier, verif, refine=()):
             out.append('/*@LEMMA:%s@*/' % cid)
             out.append('pub proof fn wrap_%s_%s()\n    ensures\n        %s,\n{\n}' % (L, form, body))
             out.append('/*@ENDLEMMA@*/')
-            obs[cid] = {'kind': 'lemma', 'props': [prop], 'text': 'AnyLayout::%s used by %s == %s for every key, modifier set and Ctrl mode' % (L, form, L)}
+            obs[cid] = {'kind': 'cell', 'unit': 'C17/variants', 'props': [prop], 'text': 'AnyLayout::%s used by %s == %s for every key, modifier set and Ctrl mode' % (L, form, L)}
     out.append('} // mod verif_c17_cells')
     return '\n'.join(out), obs, {'variants': lays, 'cells_covered': 2 * len(lays)}
 
